@@ -338,6 +338,7 @@ using mc  = char*;
 using wcc = wchar_t const*;
 using wmc = wchar_t*;
 
+#if defined(C18_CT)
 // ---- constant-evaluation leg: the same portable templates evaluated by the compiler's constant
 // evaluator (which rejects out-of-bounds accesses and signed overflow) on a fixed table of inputs.
 // A table entry is the textual case plus the result computed at compile time.
@@ -454,6 +455,8 @@ constexpr CtEntry ct_table[] = {
 };
 constexpr std::size_t ct_count = sizeof(ct_table) / sizeof(ct_table[0]);
 
+#endif // C18_CT
+
 } // namespace
 
 static bool dispatch(std::string const& op, Toks& in, Out& impl, Out& ref);
@@ -486,7 +489,8 @@ bool vh::run_case(std::string const& op, Toks& in, Out& impl, Out& ref)
         ~Done() { g_budget->finished = g_budget->finished + 1; }
     } done;
     if (op == "ct") {
-        // ct <index> <op> <args...>: impl = compile-time result of table entry <index>,
+        // ct <index> <op> <args...>: in the variant built with -DC18_CT impl = compile-time result of table
+        // entry <index> (cross-checked against the same call at run time), otherwise impl = the run-time call;
         // reference = glibc at run time on the same textual case
         auto idx = static_cast<std::size_t>(in.unum());
         std::string rest;
@@ -494,6 +498,8 @@ bool vh::run_case(std::string const& op, Toks& in, Out& impl, Out& ref)
             if (!rest.empty()) { rest += ' '; }
             rest += in.t[k];
         }
+        std::string op2 = in.str();
+#if defined(C18_CT)
         if (idx >= ct_count || rest != ct_table[idx].text) {
             impl.tok("ct-table-mismatch");
             return true;
@@ -504,11 +510,14 @@ bool vh::run_case(std::string const& op, Toks& in, Out& impl, Out& ref)
             impl.num(e.nout);
             for (int i = 0; i < e.nout; ++i) { impl.num(e.out[i]); }
         }
-        std::string op2 = in.str();
         Out rt; // the same call at run time must agree with the constant evaluator (C13)
         bool known = dispatch(op2, in, rt, ref);
         if (rt.s != impl.s) { impl.tok("runtime-differs:").tok(rt.s); }
         return known;
+#else
+        (void)idx;
+        return dispatch(op2, in, impl, ref);
+#endif
     }
     return dispatch(op, in, impl, ref);
 }
